@@ -159,9 +159,68 @@ def session(spec):
     return out
 
 
+def session_cli(spec):
+    """the same analysis through the command line entry point (mokapot.mokapot.main): parse, Percolator model, brew,
+    confidence (+ proteins), --save_models; with spec['refeed'] the saved models of a first run are loaded back in the
+    given order and the result files must equal the first run's"""
+    import importlib
+    MM = sys.modules.get("mokapot.mokapot") or importlib.import_module("mokapot.mokapot")
+    import mokapot
+    wd = Path(tempfile.mkdtemp(prefix="c08cli_"))
+    out = {"digests": [], "labels": [], "raised": ""}
+    try:
+        ds, proteins = build(spec, wd)
+        pin = str(ds.filename)
+
+        def run(dest, extra):
+            argv = [pin, "--dest_dir", str(dest), "-v", "0", "--seed", str(spec["seed"]), "--folds", str(spec["folds"]),
+                    "--max_workers", str(spec.get("workers", 1)), "--max_iter", "3", "--train_fdr", "0.05", "--test_fdr", "0.05",
+                    "--keep_decoys", "--peps_algorithm", spec.get("peps", "qvality")] + extra
+            if spec.get("cap"):
+                argv += ["--subset_max_train", str(int(spec["cap"]))]
+            if spec.get("proteins"):
+                argv += ["--proteins", str(wd / "td.fasta"), "--missed_cleavages", "0", "--min_length", "6", "--max_length", "60"]
+            MM.main(argv)
+        dest = wd / "res"
+        if spec.get("refeed") is not None:
+            first = wd / "first"
+            run(first, ["--save_models"])
+            pk = sorted(str(p) for p in first.glob("mokapot.model_fold-*.pkl"))
+            if len(pk) == spec["folds"] and all(bool(mokapot.load_model(Path(x)).is_trained) for x in pk):
+                run(dest, ["--save_models", "--load_models"] + [pk[i] for i in spec["refeed"]])
+                same = all((first / fn).read_bytes() == (dest / fn).read_bytes() for fn in sorted(os.listdir(dest)) if not fn.endswith(".pkl"))
+                out["labels"].append("refeed_equals_first")
+                out["digests"].append("equal" if same else "DIFFERENT")
+            else:
+                out["labels"].append("refeed_skipped_untrained_model")
+                out["digests"].append("skipped")
+                run(dest, ["--save_models"])
+        else:
+            run(dest, ["--save_models"])
+        for fn in sorted(os.listdir(dest)):
+            if fn.endswith(".pkl"):
+                m = mokapot.load_model(dest / fn)
+                est = getattr(m.estimator, "best_estimator_", m.estimator)
+                out["labels"].append("coefs:" + fn)
+                out["digests"].append(sha(np.asarray(est.coef_, dtype=float).tobytes() + np.asarray(est.intercept_, dtype=float).tobytes())
+                                      if hasattr(est, "coef_") else "untrained")
+            else:
+                out["labels"].append("file:" + fn)
+                out["digests"].append(sha((dest / fn).read_bytes()))
+    except BaseException as e:
+        if isinstance(e, KeyboardInterrupt):
+            raise
+        import traceback
+        out["raised"] = "%s: %s | %s" % (type(e).__name__, str(e)[:200], traceback.format_exc()[-400:].replace("\n", " / "))
+    finally:
+        shutil.rmtree(wd, ignore_errors=True)
+    return out
+
+
 if __name__ == "__main__":
     import logging
     import warnings
     warnings.filterwarnings("ignore")
     logging.disable(logging.CRITICAL)
-    print("C08RESULT " + json.dumps(session(json.loads(sys.argv[1]))))
+    _spec = json.loads(sys.argv[1])
+    print("C08RESULT " + json.dumps(session_cli(_spec) if _spec.get("cli") else session(_spec)))
